@@ -5,7 +5,7 @@ Confirmed ones are copied to /verif/seeded/<id>/ (patch.diff, demo.py, meta.json
 import json, os, shutil, subprocess, sys
 from pathlib import Path
 import os as _os
-SRC = Path(_os.environ.get('SEED_SRC', '/tmp/mut/out')); SUFFIX = _os.environ.get('SEED_SUFFIX', ''); DST = Path('/verif/seeded'); WT = Path('/tmp/seedchk')
+SRC = Path(_os.environ.get('SEED_SRC', '/tmp/mut/out')); SUFFIX = _os.environ.get('SEED_SUFFIX', ''); DST = Path('/verif/seeded'); WT = Path(_os.environ.get('SEED_WT', '/tmp/seedchk'))
 def sh(cmd, **kw): return subprocess.run(cmd, shell=True, capture_output=True, text=True, **kw)
 only = sys.argv[1:]
 sh(f'git -C /repo worktree remove --force {WT}'); sh(f'git -C /repo worktree add --detach {WT} HEAD')
